@@ -26,8 +26,11 @@
      - pre_order_iter_total : iter/tree.rs PreOrderIter yields the recursive pre-order in
        exactly n = size steps (n are necessary and sufficient) with a stack that never
        exceeds  max(1, max arity) * height  entries;
-     - post_order_iter_total : PostOrderIter never reaches its unwrap / stack[idx] panic
-       sites, never runs out of the stated fuel and yields exactly n items;
+     - post_order_iter_total / post_order_iter_correct : PostOrderIter never reaches its unwrap /
+       stack[idx] panic sites, never runs out of the stated fuel, yields exactly n items, and
+       these are the recursive post-order with index = output position and child_indices = the
+       output positions of the children (any arity); rtl_post_order_iter_correct: the same for
+       RtlPostOrderIter (right-to-left post-order);
      - depth_guard_sound / forgetful_guard_unsound : the 402 depth guard bounds the real
        nesting depth exactly when tree_height takes ALL children into account.
    The other theorems the design lists for C11 live with the builders that own the models:
@@ -37,7 +40,7 @@
    inventory, which also names the runtime behaviours that are outside any model:
    native stack depth of recursive code, allocation size, run time, third-party crates.  *)
 From Coq Require Import List NArith Bool.
-From Verif Require Import Bytes RobustModel RobustProofs RobustLexProofs RobustTreeProofs RobustPostProofs RobustDepthProofs.
+From Verif Require Import Bytes RobustModel RobustProofs RobustLexProofs RobustTreeProofs RobustPostProofs RobustDepthProofs RobustIterSpec RobustIterProofs RobustTapTreeModel RobustTapTreeProofs.
 Import ListNotations.
 Local Open Scope N_scope.
 
@@ -114,13 +117,58 @@ Print Assumptions pre_order_iter_total_C11.
 
 (* PostOrderIter (with child indices and parent stack positions), modelled with its panic sites
    (nth_child(idx).unwrap(), self.stack[idx]) and explicit fuel: no panic, fuel suffices,
-   exactly n = size items are yielded.
-   PARTIAL: that the yielded labels are the recursive post-order and that the child indices
-   point at the children is checked on examples below only, not proved. *)
+   exactly n = size items are yielded. *)
 Theorem post_order_iter_total_C11 : forall t : rtree,
   exists ys, post_order t = ROk ys /\ length ys = rsize t.
 Proof. exact post_order_iter_total. Qed.
 Print Assumptions post_order_iter_total_C11.
+
+(* ... and, for EVERY finite tree of any arity, what it yields is the recursive specification
+   (RobustIterSpec.post_spec):  (b) the labels are the recursive post-order,  (d) index is the
+   position in the output,  (c) child_indices are the output positions of the children: the
+   bottom-up builder that looks its children up at child_indices (rebuild: what
+   Miniscript::from_ast-style reconstruction, Threshold::map_from_post_order_iter and the Arc
+   rebuilding of translate_pk rely on) rebuilds every subtree in post-order, the last one being
+   the tree itself. *)
+Theorem post_order_iter_correct_C11 : forall t : rtree,
+  exists ys, post_order t = ROk ys /\
+    length ys = rsize t /\
+    map y_label ys = postorder t /\
+    (forall i y, nth_error ys i = Some y -> y_index y = N.of_nat i) /\
+    rebuild ys = subtrees_post t /\
+    last (rebuild ys) rdummy = t /\
+    ys = post_spec t 0.
+Proof. exact post_order_iter_correct. Qed.
+Print Assumptions post_order_iter_correct_C11.
+
+(* RtlPostOrderIter = PostOrderIter over the Rtl adaptor with every child_indices reversed:
+   yields the right-to-left post-order (children last to first, then the node), index = output
+   position, and Rtl::nary_index's `len - idx - 1` never underflows nor indexes out of range
+   behind nth_child's guard *)
+Theorem rtl_post_order_iter_correct_C11 : forall t : rtree,
+  rtl_post_order t = ROk (rtl_spec t) /\
+  length (rtl_spec t) = rsize t /\
+  map y_label (rtl_spec t) = rtl_postorder t /\
+  (forall i y, nth_error (rtl_spec t) i = Some y -> y_index y = N.of_nat i) /\
+  (forall n s, rtl_nth_child t n <> RPanic s).
+Proof. exact rtl_post_order_correct. Qed.
+Print Assumptions rtl_post_order_iter_correct_C11.
+
+(* The taproot tree builder behind every `tr(KEY,{..})` text (TapTreeBuilder::{push_inner_node,
+   push_leaf, finalize} driven by Tr::from_tree's pre-order loop; Ms/RobustTapTreeModel.v): for
+   EVERY shape of the `{..}` expression the result is the list of leaf depths in order when the
+   tree is at most 128 deep and TapTreeDepthError otherwise.  Hence no `current_height -= 1` /
+   `+= 1` overflow, no `1 << current_height` with a shift >= 128, not the
+   `assert!(!depths_leaves.is_empty())` of finalize, and the while loop's fuel is never exhausted. *)
+Theorem tap_tree_builder_total : forall t : tshape,
+  (theight t <= 128 -> tap_parse t = ROk (tdepths t 0)) /\
+  (128 < theight t -> tap_parse t = RErr E_TAPTREE_DEPTH).
+Proof. exact tap_parse_total_proof. Qed.
+Print Assumptions tap_tree_builder_total.
+
+Theorem tap_tree_builder_never_panics : forall (t : tshape) (site : N), tap_parse t <> RPanic site.
+Proof. exact tap_parse_never_panics. Qed.
+Print Assumptions tap_tree_builder_never_panics.
 
 (* The depth guard (from_ast / validate compare ExtData::tree_height with 402): when every
    constructor computes 0 for a leaf and 1 + max of ALL its children (the formula the tie checks
@@ -167,4 +215,31 @@ Example post_order_example :
   option_map (map (fun y => (y_label y, y_index y, y_children y)))
     (match post_order (RNode 1 [RNode 2 [RNode 3 []]; RNode 4 []]) with ROk ys => Some ys | _ => None end)
   = Some [(3, 0, []); (2, 1, [0]); (4, 2, []); (1, 3, [1; 2])].
+Proof. vm_compute. reflexivity. Qed.
+
+(* a 4-ary node, a unary chain and leaves: the child indices point at the children, the rebuilt
+   last tree is the input *)
+Example post_order_nary_example :
+  let t := RNode 9 [RNode 1 []; RNode 2 [RNode 3 []]; RNode 4 []; RNode 5 [RNode 6 []; RNode 7 []]] in
+  option_map (map (fun y => (y_label y, y_index y, y_children y)))
+    (match post_order t with ROk ys => Some ys | _ => None end)
+  = Some [(1, 0, []); (3, 1, []); (2, 2, [1]); (4, 3, []); (6, 4, []); (7, 5, []); (5, 6, [4; 5]); (9, 7, [0; 2; 3; 6])]
+  /\ last (rebuild (post_spec t 0)) rdummy = t.
+Proof. vm_compute. split; reflexivity. Qed.
+
+(* {{a,b},c}: depths 2 2 1; a left spine of 128 branches is accepted with a leaf at depth 128
+   (the complete_128 flag), 129 are an error value; the builder's panic sites exist in the model:
+   a push_leaf at height 129 would shift by 129 *)
+Example tap_tree_examples :
+  tap_parse (TB (TB TL TL) TL) = ROk [2; 2; 1] /\
+  hd_error (match tap_parse (left_spine 128) with ROk d => d | _ => [] end) = Some 128 /\
+  tap_parse (left_spine 129) = RErr E_TAPTREE_DEPTH /\
+  tb_push_leaf (mkTBuilder [] 0 false 129) = RPanic P_SHIFT /\
+  tb_finalize tb_new = RPanic P_ASSERT.
+Proof. vm_compute. repeat split; reflexivity. Qed.
+
+Example rtl_post_order_example :
+  option_map (map (fun y => (y_label y, y_index y, y_children y)))
+    (match rtl_post_order (RNode 1 [RNode 2 [RNode 3 []]; RNode 4 []; RNode 5 []]) with ROk ys => Some ys | _ => None end)
+  = Some [(5, 0, []); (4, 1, []); (3, 2, []); (2, 3, [2]); (1, 4, [3; 1; 0])].
 Proof. vm_compute. reflexivity. Qed.
